@@ -2634,11 +2634,22 @@ def _positions_of(repo: Repo, f: FuncInfo, node: ast.AST, var: str, tgt: ast.exp
 
     char_var = None
     positions = False
-    if isinstance(it, ast.Call) and _call_name(it) == "enumerate" and it.args and norm(it.args[0]) == hay and isinstance(tgt, ast.Tuple) and len(tgt.elts) == 2 and isinstance(tgt.elts[0], ast.Name) and tgt.elts[0].id == var:
+    hay_e = _parse_atom(hay)
+    hay_src = _chars_of(repo, f, hay_e) if hay_e is not None else None  # the sliced value is the character list of a name
+    hays = {hay} | ({norm(hay_src)} if hay_src is not None else set())
+
+    def same(x: ast.expr) -> bool:
+        """`x` is the sliced string, or the list of its characters (same positions)."""
+        if norm(x) in hays:
+            return True
+        src = _chars_of(repo, f, x)
+        return src is not None and norm(src) in hays
+
+    if isinstance(it, ast.Call) and _call_name(it) == "enumerate" and it.args and same(it.args[0]) and isinstance(tgt, ast.Tuple) and len(tgt.elts) == 2 and isinstance(tgt.elts[0], ast.Name) and tgt.elts[0].id == var:
         positions = True
         if isinstance(tgt.elts[1], ast.Name):
             char_var = tgt.elts[1].id
-    elif isinstance(it, ast.Call) and _call_name(it) == "range" and any(isinstance(c, ast.Call) and _call_name(c) == "len" and c.args and norm(c.args[0]) == hay for a in it.args for c in ast.walk(a)) and isinstance(tgt, ast.Name):
+    elif isinstance(it, ast.Call) and _call_name(it) == "range" and any(isinstance(c, ast.Call) and _call_name(c) == "len" and c.args and same(c.args[0]) for a in it.args for c in ast.walk(a)) and isinstance(tgt, ast.Name):
         positions = True
     if positions:
         facts = guard_formula(f, node)
@@ -2648,7 +2659,7 @@ def _positions_of(repo: Repo, f: FuncInfo, node: ast.AST, var: str, tgt: ast.exp
             if isinstance(e, ast.Compare) and len(e.ops) == 1 and isinstance(e.ops[0], ast.Eq):
                 pair = [e.left, e.comparators[0]]
                 sides = {norm(x) for x in pair}
-                if any(_char_value(repo, f, x) == "." for x in pair) and (sides & ({char_var} if char_var else set()) or f"{hay}[{var}]" in sides):
+                if any(_char_value(repo, f, x) == "." for x in pair) and (sides & ({char_var} if char_var else set()) or any(isinstance(x, ast.Subscript) and norm(x.slice) == var and same(x.value) for x in pair)):
                     good.append(mk(a))
         try:
             if good and off in (0, 1) and implies(facts, f_or(good)):
@@ -3970,6 +3981,25 @@ def _char_prefix_sites(repo: Repo, f: FuncInfo, loop: ast.For, char: str, it: as
     return out
 
 
+def _chars_of(repo: Repo, f: FuncInfo, e: ast.expr, depth: int = 0) -> ast.expr | None:
+    """`e` denotes the sequence of the characters of a string, in order: `list(s)`, `tuple(s)`, `[*s]`, `[c for c in s]`, or a
+    single-assignment local bound to one of these - returns `s`."""
+    if depth > 3:
+        return None
+    if isinstance(e, ast.Call) and isinstance(e.func, ast.Name) and e.func.id in ("list", "tuple") and len(e.args) == 1 and not e.keywords and not _is_local(f, e.func.id):
+        inner = _chars_of(repo, f, e.args[0], depth + 1)
+        return inner if inner is not None else e.args[0]
+    if isinstance(e, (ast.List, ast.Tuple)) and len(e.elts) == 1 and isinstance(e.elts[0], ast.Starred):
+        return e.elts[0].value
+    if isinstance(e, (ast.ListComp, ast.GeneratorExp)) and len(e.generators) == 1 and not e.generators[0].ifs and isinstance(e.elt, ast.Name) and isinstance(e.generators[0].target, ast.Name) and e.elt.id == e.generators[0].target.id:
+        return e.generators[0].iter
+    if isinstance(e, ast.Name) and not isinstance(f.node, ast.Lambda):
+        d = local_defs(repo, f).get(e.id)
+        if d is not None and not isinstance(d, ast.Name):
+            return _chars_of(repo, f, d, depth + 1)
+    return None
+
+
 def _pair_joiner_separator(repo: Repo, f: FuncInfo, fn: ast.expr, depth: int = 0) -> str | None:
     """The constant a two-argument combiner puts between its arguments (`"{}.{}".format`, `lambda a, b: f"{a}.{b}"`,
     `lambda a, b: a + "." + b`, `lambda a, b: ".".join((a, b))`, a small function that returns one of these); None if `fn` is
@@ -4054,6 +4084,12 @@ def _scan(repo: Repo) -> list[Site]:
 
     for f in repo.all_functions():
         reviewed = REVIEWED_PATTERN_SITES.get((f.module.name, f.qualname))
+        try:
+            sites.extend(_order_sites(repo, f, tagged))
+        except RecursionError:
+            raise
+        except Exception:  # noqa: BLE001 - the order lint makes no statement about shapes it cannot read
+            pass
         for n in own_nodes(f.node):
             try:
                 # ---- case folding of a name that is then compared: distinct names become one
@@ -4356,6 +4392,23 @@ def _scan(repo: Repo) -> list[Site]:
                 # ---- slicing a name
                 elif isinstance(n, ast.Subscript) and isinstance(n.slice, ast.Slice) and isinstance(n.ctx, ast.Load) and "NAME" in tagged(n.value):
                     s = _is_str(T, f, n.value)
+                    if s is not True and isinstance(n.value, ast.Name):
+                        # a slice of the list of the characters of a name, joined again: "".join(chars[:i]) is name[:i]
+                        src = _chars_of(repo, f, n.value)
+                        p_ = parent(n)
+                        if src is not None and "NAME" in tagged(src) and _is_str(T, f, src) is True and isinstance(p_, ast.Call) and isinstance(p_.func, ast.Attribute) and p_.func.attr == "join" and _const_str(p_.func.value) == "" and len(p_.args) == 1 and p_.args[0] is n:
+                            for b, is_upper in [(n.slice.lower, False), (n.slice.upper, True)]:
+                                if b is None or any(isinstance(c, ast.Call) and _call_name(c) == "len" for c in ast.walk(b)):
+                                    continue
+                                try:
+                                    ast.literal_eval(b)
+                                    continue  # constant bound
+                                except Exception:  # noqa: BLE001
+                                    pass
+                                verdict, why = _index_cut(repo, f, n, b, is_upper)
+                                sites.append(Site(f, n, "slice-by-index", n.value, b, True, verdict, why))
+                                break
+                            continue
                     if s is False:
                         continue
                     bounds = [(n.slice.lower, False), (n.slice.upper, True)]
@@ -4396,6 +4449,10 @@ def _scan(repo: Repo) -> list[Site]:
                         it = it.args[0]
                     else:
                         tgt = n.target
+                    if isinstance(tgt, ast.Name) and _is_str(T, f, it) is not True:
+                        src = _chars_of(repo, f, it)  # `chars = list(name)` ... `for c in chars`
+                        if src is not None:
+                            it = src
                     if not isinstance(tgt, ast.Name) or "NAME" not in tagged(it) or _is_str(T, f, it) is not True:
                         continue
                     if isinstance(n, (ast.For, ast.AsyncFor)):
@@ -4419,6 +4476,234 @@ def _scan(repo: Repo) -> list[Site]:
                 if any("NAME" in tagged(x) for x in probe):
                     sites.append(Site(f, n, "internal", None, None, True, "unknown", f"`{norm(n, 60)}`: the lint failed on this construct ({type(exc).__name__}: {str(exc)[:80]})"))
     return sites
+
+
+# --------------------------------------------------------------------------- F-NAME.ORDER: raw string order is not hierarchy order
+#
+# In a list of module names sorted as plain strings an ancestor precedes its descendants, and the block
+# [bisect(name + "."), bisect(name + "/")) holds exactly the descendants of a name. Nothing else follows from the order: the
+# descendants of a name do not directly follow it, and the ancestors of a name are not its neighbours - 'a' < 'a-b' < 'a.b'
+# (characters below '.': '-', '+', '$', ' ', ...), and even with identifier-only names 'pkg' < 'pkg.a' < 'pkg.b.x'. A scan over such
+# a list that stops, jumps or forgets earlier names as soon as a name is not related (or lies on a shallower level) treats string
+# order as a pre-order of the module tree.
+
+COUNTEREXAMPLE = "in plain string order 'a' < 'a-b' < 'a.b': the sibling 'a-b' stands between the module 'a' and its sub module 'a.b'"
+
+
+def _sort_key_kind(repo: Repo, f: FuncInfo, key: ast.expr | None) -> str:
+    """raw (no key / identity) | components (the list of the dotted components) | other."""
+    if key is None or (isinstance(key, ast.Constant) and key.value is None):
+        return "raw"
+    if isinstance(key, ast.Lambda) and len(key.args.args) == 1 and not key.args.defaults:
+        p, b = key.args.args[0].arg, key.body
+        if isinstance(b, ast.Name) and b.id == p:
+            return "raw"
+        if isinstance(b, ast.Call) and _call_name(b) in ("tuple", "list") and len(b.args) == 1:
+            b = b.args[0]
+        if isinstance(b, ast.Call) and isinstance(b.func, ast.Attribute) and b.func.attr == "split" and isinstance(b.func.value, ast.Name) and b.func.value.id == p and len(b.args) == 1 and _char_value(repo, f, b.args[0]) == ".":
+            return "components"
+        return "other"
+    if isinstance(key, (ast.Name, ast.Attribute)):
+        g = _resolve_callable_text(repo, f, key)
+        if g is not None and not isinstance(g.node, ast.Lambda):
+            ps = [x for x in _positional(g) if x not in ("self", "cls")]
+            rets = Origins._returns(g)
+            if len(ps) == 1 and len(rets) == 1:
+                b = rets[0]
+                if isinstance(b, ast.Call) and _call_name(b) in ("tuple", "list") and len(b.args) == 1:
+                    b = b.args[0]
+                if isinstance(b, ast.Call) and isinstance(b.func, ast.Attribute) and b.func.attr == "split" and isinstance(b.func.value, ast.Name) and b.func.value.id == ps[0] and len(b.args) == 1 and _char_value(repo, g, b.args[0]) == ".":
+                    return "components"
+    return "other"
+
+
+def name_list_order(repo: Repo, f: FuncInfo, e: ast.expr, depth: int = 0) -> str | None:
+    """How the sequence denoted by `e` is ordered: 'raw' (sorted() / .sort() on plain strings), 'components' (sorted by the
+    list of dotted components: a pre-order of the module tree), 'other' (another key), None (not known to be sorted).
+    Wrappers that keep or reverse the order (reversed, list, tuple, iter, enumerate, slices) are looked through; locals, fields,
+    and the return values of repo functions are followed."""
+    if depth > 6:
+        return None
+    if isinstance(e, ast.Subscript) and isinstance(e.slice, ast.Slice):
+        return name_list_order(repo, f, e.value, depth + 1)
+    if isinstance(e, ast.Call):
+        fn = e.func
+        nm = _call_name(e)
+        if isinstance(fn, ast.Name) and nm == "sorted" and e.args and not _is_local(f, "sorted"):
+            return _sort_key_kind(repo, f, next((k.value for k in e.keywords if k.arg == "key"), None))
+        if isinstance(fn, ast.Name) and nm in ("reversed", "list", "tuple", "iter", "enumerate") and e.args and not _is_local(f, nm):
+            return name_list_order(repo, f, e.args[0], depth + 1)
+        if isinstance(f.node, ast.Lambda):
+            return None
+        cs = origins(repo)._callees(f, e)
+        if len(cs) == 1 and not isinstance(cs[0].node, ast.Lambda) and not any(isinstance(x, (ast.Yield, ast.YieldFrom)) for x in own_nodes(cs[0].node)):
+            kinds = {name_list_order(repo, cs[0], r, depth + 1) for r in Origins._returns(cs[0])}
+            return kinds.pop() if len(kinds) == 1 else None
+        return None
+    if isinstance(f.node, ast.Lambda):
+        return None
+    if isinstance(e, ast.Name):
+        if e.id in f.param_names:
+            return None
+        binds = origins(repo)._bindings(f, e.id)
+        vals = [src for kind, src, p_ in binds if kind == "value" and not p_]
+        if not binds or len(vals) != len(binds):
+            return None
+        sorts = [c for c in own_nodes(f.node) if isinstance(c, ast.Call) and isinstance(c.func, ast.Attribute) and c.func.attr == "sort" and isinstance(c.func.value, ast.Name) and c.func.value.id == e.id]
+        if sorts:  # sorted in place (after it was filled)
+            kinds = {_sort_key_kind(repo, f, next((k.value for k in c.keywords if k.arg == "key"), None)) for c in sorts}
+            return kinds.pop() if len(kinds) == 1 else None
+        kinds = {name_list_order(repo, f, v, depth + 1) for v in vals}
+        return kinds.pop() if len(kinds) == 1 else None
+    if isinstance(e, ast.Attribute) and isinstance(e.value, ast.Name) and e.value.id in ("self", "cls") and f.cls is not None:
+        O = origins(repo)
+        asg = O._field_assignments(f, e.attr)
+        if not asg:
+            return None
+        kinds = {name_list_order(repo, g, v, depth + 1) for g, v in asg}
+        classes = [*repo.mro(f.cls), *repo.subclasses(f.cls)]
+        for ci in classes:
+            for m in [*ci.methods.values(), *ci.extra_methods]:
+                for c in own_nodes(m.node):
+                    if isinstance(c, ast.Call) and isinstance(c.func, ast.Attribute) and c.func.attr == "sort" and norm(c.func.value) == norm(e):
+                        kinds = {_sort_key_kind(repo, m, next((k.value for k in c.keywords if k.arg == "key"), None))}
+        return kinds.pop() if len(kinds) == 1 else None
+    return None
+
+
+def _order_sites(repo: Repo, f: FuncInfo, tagged) -> list[Site]:
+    """Scans over module names sorted as plain strings that stop / jump / drop remembered names where a name is not related."""
+    from core.guards import atom as mk, atoms_of, f_not, implies
+
+    from .common import guard_formula
+
+    if isinstance(f.node, ast.Lambda):
+        return []
+    out: list[Site] = []
+    loops: list[tuple[ast.AST, ast.expr, set[str], str | None]] = []  # (loop, sorted sequence, element variables, index variable)
+    for n in own_nodes(f.node):
+        if isinstance(n, (ast.For, ast.AsyncFor)):
+            it, tgt = n.iter, n.target
+            if isinstance(it, ast.Call) and _call_name(it) == "enumerate" and it.args and isinstance(tgt, ast.Tuple) and len(tgt.elts) == 2:
+                it, tgt = it.args[0], tgt.elts[1]
+            if isinstance(tgt, ast.Name) and "NAME" in tagged(it):
+                loops.append((n, it, {tgt.id}, None))
+        if isinstance(n, (ast.For, ast.AsyncFor, ast.While)):
+            # an index walk: `candidate = names[idx]` inside the loop
+            for x in ast.walk(n):
+                if isinstance(x, ast.Assign) and len(x.targets) == 1 and isinstance(x.targets[0], ast.Name) and isinstance(x.value, ast.Subscript) and not isinstance(x.value.slice, ast.Slice) and isinstance(x.value.slice, ast.Name) and "NAME" in tagged(x.value.value):
+                    if any(l[0] is n for l in loops):
+                        continue
+                    loops.append((n, x.value.value, {x.targets[0].id}, x.value.slice.id))
+                    break
+    for loop, seq, elems, idx in loops:
+        try:
+            order = name_list_order(repo, f, seq)
+        except RecursionError:
+            raise
+        except Exception:  # noqa: BLE001
+            order = None
+        if order not in ("raw", "components"):
+            continue
+        inner_loops = [x for st_ in loop.body for x in ast.walk(st_) if isinstance(x, (ast.For, ast.AsyncFor, ast.While))]
+
+        def innermost_is_this(x: ast.AST) -> bool:
+            for a in ancestors(x):
+                if a is loop:
+                    return True
+                if isinstance(a, (ast.For, ast.AsyncFor, ast.While)):
+                    return False
+            return False
+
+        def mentions(e_: ast.AST, names_: set[str]) -> bool:
+            return any(isinstance(y, ast.Name) and y.id in names_ for y in ast.walk(e_))
+
+        level_vars = set(elems)
+        for x in ast.walk(loop):  # locals computed from the element: `level = name.count(".")`, `parts = name.split(".")`
+            if isinstance(x, ast.Assign) and len(x.targets) == 1 and isinstance(x.targets[0], ast.Name) and mentions(x.value, elems):
+                level_vars.add(x.targets[0].id)
+
+        def evidence(x: ast.AST, levels: bool) -> str | None:
+            """The path condition of `x` says that the current name is NOT related to another one (or compares levels)."""
+            try:
+                facts = guard_formula(f, x)
+            except Exception:  # noqa: BLE001
+                return None
+            for a in atoms_of(facts):
+                e_ = _unbool(_parse_atom(a))
+                if e_ is None:
+                    continue
+                try:
+                    ex = _expand_names(repo, f, e_)
+                except Exception:  # noqa: BLE001
+                    ex = e_
+                rel = None
+                for c in (e_, ex):  # (as written, and with single-assignment locals expanded)
+                    if isinstance(c, ast.Call) and isinstance(c.func, ast.Attribute) and c.func.attr == "startswith" and c.args and (mentions(c.func.value, elems) or mentions(c.args[0], elems)):
+                        rel = c
+                if rel is None and isinstance(ex, ast.Call) and not (isinstance(ex.func, ast.Attribute) and ex.func.attr in STR_REL_METHODS) and mentions(ex, elems) and len(ex.args) + len(ex.keywords) >= 1:
+                    texts = [" ".join(ast.unparse(a_).split()) for a_ in ex.args]
+                    for i_, h_ in enumerate(texts):
+                        others_ = {t for j_, t in enumerate(texts) if j_ != i_}
+                        try:
+                            if others_ and _relation_call(repo, f, ex, h_, others_, 0):
+                                rel = ex
+                        except RecursionError:
+                            raise
+                        except Exception:  # noqa: BLE001
+                            pass
+                if rel is not None:
+                    try:
+                        if implies(facts, f_not(mk(a))):
+                            return f"`{norm(e_, 60)}` is false there"
+                    except AnalysisError:
+                        pass
+                if levels and isinstance(ex, ast.Compare) and len(ex.ops) == 1 and isinstance(ex.ops[0], (ast.Lt, ast.LtE, ast.Gt, ast.GtE)) and mentions(e_, level_vars):
+                    if any(isinstance(c, ast.Call) and isinstance(c.func, ast.Attribute) and ((c.func.attr == "count" and c.args and _const_str(c.args[0]) == ".") or (c.func.attr == "split" and c.args and _const_str(c.args[0]) == ".")) for c in ast.walk(ex)):
+                        return f"the dotted levels are compared (`{norm(e_, 60)}`)"
+            return None
+
+        if order == "components":
+            continue  # (a pre-order of the module tree: sub modules follow their module; nothing is claimed about such scans)
+        what = f"the names in `{norm(seq, 40)}` are sorted as plain strings"
+        # -- the scan ends / jumps where a name is not related
+        for x in [y for st_ in loop.body for y in ast.walk(st_)]:
+            kind = None
+            if isinstance(x, ast.Break) and innermost_is_this(x):
+                kind = "stops"
+            elif isinstance(x, ast.Return) and not any(isinstance(a, (ast.FunctionDef, ast.AsyncFunctionDef, ast.Lambda)) and a is not f.node for a in ancestors(x) if a is not f.node and any(b is loop for b in ancestors(a))):
+                kind = "stops"
+            elif idx is not None and isinstance(x, ast.Assign) and len(x.targets) == 1 and isinstance(x.targets[0], ast.Name) and x.targets[0].id == idx:
+                core, off = _strip_offset(x.value)
+                if not (isinstance(core, ast.Name) and core.id == idx and off is not None):
+                    kind = "jumps"
+            if kind is None:
+                continue
+            ev = evidence(x, levels=False)
+            if ev is not None:
+                out.append(Site(f, x, "order-scan", seq, None, True, "unsafe", f"`{norm(stmt_of(x) or x, 60)}`: the scan over the sorted names {kind} where a name is not related to the searched one ({ev}) - {what}, so related names need not be neighbours: {COUNTEREXAMPLE}", "order"))
+        # -- remembered names are dropped where a name is not related / lies on a shallower level (a stack of enclosing modules)
+        stacks = set()
+        for x in [y for st_ in loop.body for y in ast.walk(st_)]:
+            if isinstance(x, ast.Call) and isinstance(x.func, ast.Attribute) and x.func.attr == "append" and isinstance(x.func.value, ast.Name) and len(x.args) == 1 and mentions(x.args[0], elems):
+                stacks.add(x.func.value.id)
+            if isinstance(x, ast.AugAssign) and isinstance(x.op, ast.Add) and isinstance(x.target, ast.Name) and mentions(x.value, elems):
+                stacks.add(x.target.id)
+        for x in [y for st_ in loop.body for y in ast.walk(st_)]:
+            c_name = None
+            if isinstance(x, ast.Call) and isinstance(x.func, ast.Attribute) and x.func.attr in ("pop", "clear") and isinstance(x.func.value, ast.Name):
+                c_name = x.func.value.id
+            elif isinstance(x, ast.Delete) and any(isinstance(t, ast.Subscript) and isinstance(t.value, ast.Name) for t in x.targets):
+                c_name = next(t.value.id for t in x.targets if isinstance(t, ast.Subscript) and isinstance(t.value, ast.Name))
+            elif isinstance(x, ast.Assign) and len(x.targets) == 1 and isinstance(x.targets[0], ast.Name) and isinstance(x.value, ast.Subscript) and isinstance(x.value.slice, ast.Slice) and isinstance(x.value.value, ast.Name) and x.value.value.id == x.targets[0].id:
+                c_name = x.targets[0].id  # stack = stack[:k]
+            if c_name is None or c_name not in stacks:
+                continue
+            level_vars_here = level_vars | {c_name}
+            ev = evidence(x, levels=True)
+            if ev is not None:
+                out.append(Site(f, x, "order-stack", seq, None, True, "unsafe", f"`{norm(stmt_of(x) or x, 60)}`: names remembered from earlier rounds of the loop over the sorted names (`{c_name}`) are dropped where the current name is not below them ({ev}) - this takes the sort order for a pre-order of the module tree, but {what}: {COUNTEREXAMPLE} (sorting with key=lambda n: n.split('.') gives a pre-order)", "order"))
+    return out
 
 
 # --------------------------------------------------------------------------- positive fixture
